@@ -43,11 +43,24 @@ Files3 == {"root", "a", "b", "p"}
 Max3 == [n \in Files3 |-> CASE n = "root" -> 2 [] n = "a" -> 1 [] n = "b" -> 0 [] n = "p" -> 1]
 MaxDiamond == [n \in Files3 |-> CASE n = "root" -> 3 [] n = "a" -> 1 [] n = "b" -> 1 [] n = "p" -> 0]
 Max3T == [n \in Files3 |-> CASE n = "root" -> 3 [] n = "a" -> 2 [] n = "b" -> 1 [] n = "p" -> 1]
-Locs == <<"", "L1", "L2">>
+RegLogs1 == { <<"L1", "L2">> }
+\* the location family: other orders, a location registered again, the current directory registered explicitly
+RegLogsAll == { <<"L1", "L2">>, <<"L2", "L1">>, <<"L1", "L2", "L1">>, <<"L2", "L1", "L2">>, <<"", "L1", "L2">>, <<"L1", "", "L2", "">> }
+EForm(fs, b, fin) == [files |-> fs, bindings |-> b, finalize |-> fin]
+Entries == << EForm(<<"root", "a">>, "one", TRUE), EForm(<<>>, "none", TRUE), EForm(<<"root">>, "emptylist", FALSE),
+              EForm(<<>>, "emptystr", TRUE), EForm(<<"a", "root">>, "none", TRUE), EForm(<<>>, "one", FALSE),
+              EForm(<<"root">>, "emptystr", TRUE), EForm(<<>>, "emptylist", TRUE) >>
+EntryB == B("", "g", "p", L("from-bindings"))
 Rdrs == <<"r1", "pkg", "r2">>        \* open(), the Python-path resource reader, a custom reader
 \* root in the current directory; a and b placed so that order matters
 Present1 == { <<"", "r1", "root">>, <<"", "r1", "a">>, <<"", "r1", "b">>, <<"", "pkg", "p">> }
 Present2 == { <<"", "r1", "root">>, <<"L1", "r2", "a">>, <<"L2", "r1", "a">>, <<"L2", "r2", "b">>, <<"L1", "r1", "b">>, <<"", "pkg", "p">>, <<"L1", "r2", "p">> }
 Presents == { Present1, Present2 }
 Presents1 == { Present1 }
+\* a also sits in the current directory and in both locations; b in both locations through different readers
+Present3 == { <<"", "r1", "root">>, <<"L1", "r1", "a">>, <<"L2", "r1", "a">>, <<"L2", "r1", "b">>, <<"L1", "r2", "b">> }
+Present4 == { <<"", "r1", "root">>, <<"", "r1", "a">>, <<"L1", "r1", "a">>, <<"L2", "r2", "b">>, <<"L1", "r1", "b">> }
+PresentsLocs == { Present2, Present3, Present4 }
+TplLocs == { B("", "f", "p", L("1")), [t |-> "include", file |-> "a", lines |-> 1], [t |-> "include", file |-> "b", lines |-> 1] }
+MaxLocs == [n \in Files3 |-> CASE n = "root" -> 2 [] n = "a" -> 1 [] n = "b" -> 1 [] n = "p" -> 0]
 =============================================================================
